@@ -131,62 +131,70 @@ Record compaction := mkC { clower : nat; cupper : nat; cfirst : key; clast : key
 
 Definition is_input (c : compaction) (f : file) : bool := existsb (N.eqb (fid f)) (cinputs c).
 
-Fixpoint map_range {A} (f : A -> A) (lo hi : nat) (i : nat) (l : list A) : list A :=
-  match l with
-  | [] => []
-  | x :: r => (if (lo <=? i)%nat && (i <? hi)%nat then f x else x) :: map_range f lo hi (S i) r
-  end.
-
-(* Version::apply_compaction_inner *)
+(* Version::apply_compaction_inner: levels lower..upper-1 lose the inputs (retain); the slice
+   [lower_bound(first_key), upper_bound(last_key)) of the upper level is replaced by the outputs.
+   (Indexing levels[upper] out of range panics in the Rust; the guard makes the model total.) *)
 Definition apply_compaction (v : version) (c : compaction) (outs : list file) : version :=
-  let v1 := map_range (filter (fun f => negb (is_input c f))) (clower c) (cupper c) 0 v in
-  let up := nth (cupper c) v1 [] in
-  let lb := lower_bound up (cfirst c) in
-  let ub := upper_bound up (clast c) in
-  set_nth (cupper c) (firstn lb up ++ outs ++ skipn ub up) v1.
+  let lo := clower c in let up := cupper c in
+  if (up <? length v)%nat then
+    let u := nth up v [] in
+    let lb := lower_bound u (cfirst c) in
+    let ub := upper_bound u (clast c) in
+    firstn lo v ++ map (filter (fun f => negb (is_input c f))) (firstn (up - lo) (skipn lo v))
+      ++ [firstn lb u ++ outs ++ skipn ub u] ++ skipn (S up) v
+  else v.
 
 Definition files_overlap (f g : file) : bool :=
   key_leb (first_key f) (last_key g) && key_leb (first_key g) (last_key f).
 
-Fixpoint index_levels (i : nat) (v : version) : list (nat * file) :=
-  match v with [] => [] | lv :: r => map (fun f => (i, f)) lv ++ index_levels (S i) r end.
+(* the levels in lookup order: L0 by biggest timestamp descending, deeper levels as stored *)
+Definition ordered_levels (v : version) : list level :=
+  match v with [] => [] | l0 :: r => l0_order l0 :: r end.
 
-(* position of a file inside the lookup order of its level: for L0 the l0_order, else the level *)
-Definition level_order (i : nat) (lv : level) : list file := if (i =? 0)%nat then l0_order lv else lv.
+(* the files of levels lower..upper-1, in the order `load` consults them *)
+Definition mid_files (v : version) (c : compaction) : list file :=
+  concat (firstn (cupper c - clower c) (skipn (clower c) (ordered_levels v))).
+Definition upper_level (v : version) (c : compaction) : level := nth (cupper c) v [].
+Definition upper_slice (v : version) (c : compaction) : level :=
+  let u := upper_level v c in slice u (lower_bound u (cfirst c)) (upper_bound u (clast c)).
 
-Fixpoint after_in (x : N) (l : list file) : list file :=
-  match l with [] => [] | f :: r => if fid f =? x then r else after_in x r end.
+(* closure: no non-input overlapping an input is consulted after it *)
+Fixpoint closed_overlap (inp : file -> bool) (l : list file) : bool :=
+  match l with
+  | [] => true
+  | x :: r => (negb (inp x) || forallb (fun g => inp g || negb (files_overlap x g)) r) && closed_overlap inp r
+  end.
 
 (* admissibility of a chosen compaction (what the theorems need):
-   (a) every input is a file of levels lower..upper, and lower < upper < number of levels;
-   (b) the files of the upper level's slice [lower_bound(first), upper_bound(last)) are exactly
-       the inputs of that level;
-   (c) every input's key range lies inside [first, last];
-   (d) closure: for an input f of a level l < upper, every file that is consulted AFTER f for some
-       shared key before the upper level — later in f's own level order and overlapping f, or in a
-       level strictly between l and upper and overlapping f — is an input too. *)
+   - lower < upper < number of levels, first <= last, lower_bound(first) <= upper_bound(last) on
+     the upper level (the Rust subtracts the two);
+   - the files of the upper level's slice [lower_bound(first), upper_bound(last)) are inputs, no
+     other file of the upper level is;
+   - every input of levels lower..upper lies inside [first, last];
+   - closure (closed_overlap) over the files of levels lower..upper-1 in lookup order: a
+     non-input that shares keys with an input and is consulted after it would end up *above* the
+     input's data once that data has moved down to the upper level;
+   - every input id names a file of those levels. *)
+Definition vc_shape (v : version) (c : compaction) : bool :=
+  let u := upper_level v c in
+  (clower c <? cupper c)%nat && (cupper c <? length v)%nat && key_leb (cfirst c) (clast c) &&
+  (lower_bound u (cfirst c) <=? upper_bound u (clast c))%nat.
+Definition vc_slice (v : version) (c : compaction) : bool := forallb (is_input c) (upper_slice v c).
+Definition vc_rest (v : version) (c : compaction) : bool :=
+  let u := upper_level v c in
+  forallb (fun f => negb (is_input c f)) (firstn (lower_bound u (cfirst c)) u ++ skipn (upper_bound u (clast c)) u).
+Definition vc_range (v : version) (c : compaction) : bool :=
+  forallb (fun f => negb (is_input c f) || (key_leb (cfirst c) (first_key f) && key_leb (last_key f) (clast c)))
+          (mid_files v c ++ upper_level v c).
+Definition vc_closed (v : version) (c : compaction) : bool := closed_overlap (is_input c) (mid_files v c).
+Definition vc_ids (v : version) (c : compaction) : bool :=
+  forallb (fun x => existsb (fun f => fid f =? x) (mid_files v c ++ upper_level v c)) (cinputs c).
 Definition valid_compactionb (v : version) (c : compaction) : bool :=
-  let lo := clower c in let up := cupper c in
-  let upl := nth up v [] in
-  let sl := slice upl (lower_bound upl (cfirst c)) (upper_bound upl (clast c)) in
-  (lo <? up)%nat && (up <? length v)%nat &&
-  forallb (fun x => existsb (fun lf => (lo <=? fst lf)%nat && (fst lf <=? up)%nat && (fid (snd lf) =? x)) (index_levels 0 v)) (cinputs c) &&
-  forallb (is_input c) sl &&
-  forallb (fun f => negb (is_input c f) || existsb (fun g => fid g =? fid f) sl) upl &&
-  forallb (fun lf => negb ((lo <=? fst lf)%nat && (fst lf <=? up)%nat && is_input c (snd lf)) ||
-                     (key_leb (cfirst c) (first_key (snd lf)) && key_leb (last_key (snd lf)) (clast c)))
-          (index_levels 0 v) &&
-  forallb (fun lf =>
-      let l := fst lf in let f := snd lf in
-      negb ((lo <=? l)%nat && (l <? up)%nat && is_input c f) ||
-      (forallb (fun g => negb (files_overlap f g) || is_input c g) (after_in (fid f) (level_order l (nth l v []))) &&
-       forallb (fun lg => negb ((l <? fst lg)%nat && (fst lg <? up)%nat && files_overlap f (snd lg)) || is_input c (snd lg))
-               (index_levels 0 v)))
-    (index_levels 0 v).
+  vc_shape v c && vc_slice v c && vc_rest v c && vc_range v c && vc_closed v c && vc_ids v c.
 
 (* the entries a compaction reads: all entries of its input files *)
 Definition input_files (v : version) (c : compaction) : list file :=
-  filter (is_input c) (map snd (index_levels 0 v)).
+  filter (is_input c) (mid_files v c ++ upper_slice v c).
 Definition input_entries (v : version) (c : compaction) : list entry :=
   flat_map fents (input_files v c).
 
